@@ -487,6 +487,8 @@ class Inliner:
         self.known = known
         self.helpers: list[Helper] = []
         self.log: list[str] = []
+        self.findings: list[dict] = []  # interface defects of a helper that would disappear with the helper
+        self._keys: dict = {}
 
     def collect(self):
         self.helpers = []
@@ -568,6 +570,7 @@ class Inliner:
     # -- walking
     def _module(self, mod: str, tree: ast.Module) -> int:
         changed = 0
+        self._keys = {id(node): key for key, node, _k, _o in function_keys(tree)}
 
         def visit_fn(fn, enclosing):
             nonlocal changed
@@ -645,6 +648,13 @@ class Inliner:
             return None
         h, recv = r
         h.sites += 1
+        if isinstance(s, ast.Assign) and isinstance(s.targets[0], ast.Tuple) and not any(isinstance(t, ast.Starred) for t in s.targets[0].elts):
+            from sa.lints import return_shape_problems
+            caller = self._keys.get(id(enclosing[-1]), enclosing[-1].name) if enclosing else "?"
+            for node, why in return_shape_problems(h.node, h.key, len(s.targets[0].elts), caller):
+                item = {"kind": "return shape", "caller": caller, "module": mod, "lineno": getattr(node, "lineno", 0), "why": why, "text": ast.unparse(node)[:80]}
+                if item not in self.findings:
+                    self.findings.append(item)
         body = _body(h.node)
         if len(body) == 1 and isinstance(body[0], ast.Return):
             return None  # expression form is the better fit
@@ -822,5 +832,8 @@ class Inliner:
         return False
 
 
-def inline_unknown_helpers(modules: dict, known: set) -> list[str]:
-    return Inliner(modules, known).run()
+def inline_unknown_helpers(modules: dict, known: set):
+    """-> (log lines, interface findings)"""
+    inl = Inliner(modules, known)
+    log = inl.run()
+    return log, inl.findings
